@@ -31,7 +31,7 @@
 
    About the generated analysis (Gen/Analysis.v): assigned_vars is sound for every statement form; liveness and
    exposed_uses are sound for loop-free code (..._loopfree_partial) and refuted for `for` loops
-   (C01_live_in_sound_for_bound_refuted: the loop bound is not live; C01_exposed_uses_zero_trip_refuted: the loop
+   (C01_live_in_sound_for_bound_variant: the loop bound is not live in the code as read before the repair; C01_exposed_uses_zero_trip_refuted: the loop
    variable after zero iterations); `while` loops are not covered by a theorem. *)
 From Coq Require Import List String ZArith Bool.
 Require Import OV.Graph.Syntax OV.Graph.Sem OV.Script.Syntax OV.Script.Sets OV.Gen.Analysis OV.Gen.ScriptTables
@@ -306,23 +306,29 @@ Theorem C01_live_in_sound_loopfree_partial :
 Proof. exact live_in_sound_loopfree_statement. Qed.
 Print Assumptions C01_live_in_sound_loopfree_partial.
 
-(* `for i in range(n): y = y + i` with y live afterwards: the generated analysis says only y is live before the loop;
-   environments that agree on y and differ on n (2 resp. 3) end with y = 1 resp. y = 3 *)
-Theorem C01_live_in_sound_for_bound_refuted :
-  exists li o1 o2,
+(* Variant statements about the loop bound.  `for_bound_live` is computed from the generated analysis (= analysis.py as
+   it is now) on `for i in range(n): y = y + i` with y live afterwards: does the analysis keep the bound n live?
+   As read before the repair (for_bound_live = false): only y is live before the loop; environments that agree on y and
+   differ on n (2 resp. 3) end with y = 1 resp. y = 3 -- liveness is unsound and the full statement is refuted.
+   Repaired (for_bound_live = true): for every `for` statement the variables of the bound are live before the loop. *)
+Theorem C01_live_in_sound_for_bound_variant :
+  (for_bound_live = false ->
+   exists li o1 o2,
     live_stmt (fun _ => None) 5 forb_stmt ["y"] = Some li /\ ~ In "n" li /\
     (forall x, In x li -> plookup Z forb_pe1 x = plookup Z forb_pe2 x) /\
     forb_exec forb_pe1 = Some o1 /\ forb_exec forb_pe2 = Some o2 /\
     match o1, o2 with
     | ONormal _ a, ONormal _ b => plookup Z a "y" = Some (PT Z 1%Z) /\ plookup Z b "y" = Some (PT Z 3%Z)
     | _, _ => False
-    end.
-Proof. exact live_in_sound_for_bound_refuted. Qed.
-Print Assumptions C01_live_in_sound_for_bound_refuted.
+    end) /\
+  (for_bound_live = true ->
+   forall cic fuel i b body lo L, live_stmt cic fuel (SFor i b body) lo = Some L -> incl (used_vars b) L).
+Proof. exact (conj live_in_sound_for_bound_refuted live_in_for_bound_repaired). Qed.
+Print Assumptions C01_live_in_sound_for_bound_variant.
 
-Theorem C01_live_in_sound_full_refuted : ~ C01_live_in_sound_full.
+Theorem C01_live_in_sound_full_variant : for_bound_live = false -> ~ C01_live_in_sound_full.
 Proof. exact live_in_sound_full_refuted. Qed.
-Print Assumptions C01_live_in_sound_full_refuted.
+Print Assumptions C01_live_in_sound_full_variant.
 
 (* exposed uses of the generated analysis (what a loop body reads from outside): full statement -- FALSE of the code
    as it is, see the zero-trip witness below *)
